@@ -261,8 +261,11 @@ def run_family(ctx, pid):
     def enter_halves(c):
         h1, h2 = (next(h for h in c["hooks"] if h["id"] == i) for i in ("h1", "h2"))
         return (h1["tm"], h1["tw"], h2["am"], h2["aw"]) == ("enter_RUNNING", -1, "enter_RUNNING", 0)
-    eos = [c for c in cases if c.get("quiet") or watched_stop(c) or enter_halves(c)]
-    cases = [c for c in cases if not (c.get("quiet") or watched_stop(c) or enter_halves(c))]
+    def neg_await(c):
+        h1 = next(h for h in c["hooks"] if h["id"] == "h1")
+        return (h1["tm"], h1["tw"]) == ("before_START_ACTIVITY", 0) and h1["aw"] == -1 and h1["am"] != h1["tm"]
+    eos = [c for c in cases if c.get("quiet") or watched_stop(c) or enter_halves(c) or neg_await(c)]
+    cases = [c for c in cases if not (c.get("quiet") or watched_stop(c) or enter_halves(c) or neg_await(c))]
     interesting = [c for c in cases if any(h["fails"] or (h["tm"], h["tw"]) != (h["am"], h["aw"]) for h in c["hooks"]) or c["bodyfails"]]
     # the "two hooks meeting in one moment" catalogue (Cfg3Valid: h2 may be non-critical) is replayed completely
     def is_meet(c):
